@@ -97,6 +97,7 @@ func (p *PauseController) Pause(failAfter time.Duration) error {
 	p.State = PauseStatePaused
 	p.StopMessage = ""
 	p.FailAfter = failAfter
+	verifEmit("pause_state", p, int(PauseStatePaused))
 	return nil
 }
 
@@ -107,6 +108,7 @@ func (p *PauseController) Resume() error {
 
 func (p *PauseController) Wait() (PauseWaitAction, string) {
 	state, stopMessage, pauseChannel, failChannel := p.getWaitState()
+	verifYield("wait_snapshot", p, int(state))
 
 	switch state {
 	case PauseStateRunning:
@@ -151,4 +153,5 @@ func (p *PauseController) setState(newState PauseState, message string) {
 
 	p.StopMessage = message
 	p.State = newState
+	verifEmit("pause_state", p, int(newState))
 }
